@@ -1021,6 +1021,11 @@ static int btls_send(struct xcm_socket *__restrict s,
 
     try_finish_tls_handshake(s);
 
+    /* the handshake attempt may have found the connection dead */
+    TP_RET_ERR_IF_STATE(s, bts, conn_state_bad, bts->conn.badness_reason);
+
+    TP_RET_ERR_IF_STATE(s, bts, conn_state_closed, EPIPE);
+
     TP_RET_ERR_UNLESS_STATE(s, bts, conn_state_ready, EAGAIN);
 
     if (len == 0)
